@@ -120,7 +120,8 @@ CLAIMED = {
         "exceptional exit at each level, an assignment to another variable inside, and an observer thread at the innermost point; views: in, [], get, detype.",
    note="Unverified: preemption between statements of swap / two threads inside _set_item on G; threading.local itself; worker threads "
         "copying the spawner's overrides (get/set_swapped_values); iteration and detype views (C10); $UPDATE_OS_ENVIRON mirroring; swap relies "
-        "on ASSUMED stronger clauses of _set_item/_del_item (valid value, no sync partner, variable still known at exit) and on with-body "
+        "on stronger clauses of _set_item/_del_item which are now PROVED on the real functions under their side conditions (valid value, no sync partner, variable still "
+        "known at exit: contracts #strong) - what remains assumed is that these side conditions hold at swap's call sites and on with-body "
         "hypotheses (overlay stack discipline, no assignment of a swapped key in G, no deletion of a swapped override). One genuine defect "
         "repaired (fix: 2d8e883). Trusted: pyvc engine + models + z3/cvc5.",
    design="§3 C11"),
